@@ -1768,3 +1768,33 @@ Lemma resolver_per_target us vf h i log init sched :
   r_todo r = [] ->
   exists ps vs, r_pushes r = ps ++ [Ok vs] /\ NoDup vs /\ forall v, In v vs <-> live (us i) (spec_etcd (project i h)) v.
 Proof. intros C Sy Hin E. apply (resolver_current (us i) vf (project i h) log init sched C Sy Hin E). Qed.
+
+(* ------------------------------------------------------------------ the connection-state watcher *)
+Definition not_ready (s : cstate) : Prop := s <> SReady.
+Definition not_failed (s : cstate) : Prop := s <> SFailure /\ s <> SShutdown.
+
+Lemma sw_keeps_disc mid : forall w, w_disc w = true -> Forall not_ready mid ->
+  w_disc (sw_run w mid) = true /\ w_notified (sw_run w mid) = w_notified w.
+Proof.
+  induction mid as [|s mid IH]; intros w D F; [auto|]. inversion F; subst. unfold sw_run in *. simpl.
+  destruct (IH (sw_update w s)) as [A B]; [|assumption|].
+  - destruct s; simpl; try assumption; try reflexivity. exfalso. apply H1. reflexivity.
+  - split; [assumption|]. rewrite B. destruct s; simpl; try reflexivity. exfalso. apply H1. reflexivity.
+Qed.
+
+Lemma sw_reload_once w mid : w_disc w = true -> Forall not_ready mid ->
+  let w' := sw_run w (mid ++ [SReady]) in
+  w_notified w' = S (w_notified w) /\ w_disc w' = false /\ w_cur w' = SReady.
+Proof.
+  intros D F. unfold sw_run. rewrite fold_left_app. fold (sw_run w mid). destruct (sw_keeps_disc mid w D F) as [A B].
+  simpl. rewrite A. simpl. rewrite B. auto.
+Qed.
+
+Lemma sw_no_spurious rs : forall w, w_disc w = false -> Forall not_failed rs ->
+  w_notified (sw_run w rs) = w_notified w /\ w_disc (sw_run w rs) = false.
+Proof.
+  induction rs as [|s rs IH]; intros w D F; [auto|]. inversion F; subst. destruct H1 as [N1 N2]. unfold sw_run in *. simpl.
+  destruct (IH (sw_update w s)) as [A B]; [|assumption|].
+  - destruct s; simpl; try assumption; try reflexivity; try (rewrite D; reflexivity); congruence.
+  - split; [|assumption]. rewrite A. destruct s; simpl; try reflexivity; try (rewrite D; reflexivity); congruence.
+Qed.
